@@ -106,6 +106,15 @@ public:
         k[QStringLiteral("forgedClose")] = r.chance(0.5);
         k[QStringLiteral("onError")] = r.chance(0.6) ? 0 : 1;   // the scripted sender aborts (0) or carries on (1) after a rejected block
         k[QStringLiteral("contentSeed")] = (qint64)(r.next() & 0x7fffffff);
+        {
+            // a sender that announces far more than it delivers (sizes beyond 31/32 bits are legal: the size is a 64-bit value)
+            Prng rh(derive(seed, "c19huge"));
+            if (topo == 0 && rh.chance(0.04)) {
+                k[QStringLiteral("hugeSize")] = 1 + (qint64)rh.uniform(4);
+                k[QStringLiteral("announce")] = rh.chance(0.8) ? 1 : 0;
+                k[QStringLiteral("fault")] = 0;
+            }
+        }
         p.ops.append(mkop(QStringLiteral("connect")));
         p.ops.append(mkop(QStringLiteral("pump")));
         p.ops.append(mkop(QStringLiteral("transfer"), {}, {}, (quint32)r.next()));
@@ -233,13 +242,20 @@ public:
                 // ---------------- scripted sender -> real receiver
                 QByteArray offer = "<iq type='set' id='si1' from='" + QByteArray(kPeer) + "' to='" + to + "'><si xmlns='http://jabber.org/protocol/si' id='" + sid +
                     "' profile='http://jabber.org/protocol/si/profile/file-transfer' mime-type='application/octet-stream'><file xmlns='http://jabber.org/protocol/si/profile/file-transfer' name='f.bin'";
+                const int hugeKind = sizeAnnounced ? (int)plan.knob(QStringLiteral("hugeSize")) : 0;
+                static const qint64 hugeBase[] = { 0, Q_INT64_C(2147483648), Q_INT64_C(4294967296), Q_INT64_C(5000000000), Q_INT64_C(1099511627776) };
+                const qint64 announcedSize = hugeKind ? hugeBase[hugeKind] + size : size;
                 if (sizeAnnounced) {
-                    offer += " size='" + QByteArray::number(size) + "'";
+                    offer += " size='" + QByteArray::number(announcedSize) + "'";
                 }
                 if (hashAnnounced) {
                     offer += " hash='" + md5.toHex() + "'";
                 }
                 offer += "/><feature xmlns='http://jabber.org/protocol/feature-neg'><x xmlns='jabber:x:data' type='form'><field var='stream-method' type='list-single'><option><value>http://jabber.org/protocol/ibb</value></option></field></x></feature></si></iq>";
+                if (hugeKind) {
+                    faultFired = true;
+                    res.faults[QStringLiteral("stream_ends_long_before_an_announced_size_beyond_31_bits")]++;
+                }
                 if (fault == 9) {
                     device.failAt = faultAt % std::max(1, nBlocks);
                 } else if (fault == 10) {
@@ -406,6 +422,10 @@ public:
                     static const char *names[] = { "none", "block_dropped", "block_duplicated", "blocks_swapped", "bit_flip", "early_close", "wrong_sid", "wrong_sender", "link_cut", "device_write_error", "device_short_write", "third_party_block" };
                     res.violations.append(Violation { QStringLiteral("success_with_wrong_bytes"), QStringLiteral("C19:receiver_reports_success_but_copy_differs:%1:%2").arg(QLatin1String(names[fault]), QLatin1String(announceNames[announce & 3])),
                                                       QStringLiteral("the receiver finished with NoError but holds %1 bytes that differ from the %2 bytes sent (block size %3, fault %4 at %5, announced: %6)").arg(device.data.size()).arg(size).arg(block).arg(QLatin1String(names[fault])).arg(faultAt).arg(shape), 0 });
+                }
+                if (hugeKind && jobFinished && jobError == QXmppTransferJob::NoError) {
+                    res.violations.append(Violation { QStringLiteral("success_with_wrong_bytes"), QStringLiteral("C19:receiver_reports_success_but_stream_ended_before_the_announced_size:%1").arg(QLatin1String(announceNames[announce & 3])),
+                                                      QStringLiteral("the offer announced %1 bytes, the stream was closed after %2 bytes, the receiver finished with NoError").arg(announcedSize).arg(device.data.size()), 0 });
                 }
                 // stanzas of a third party must leave the transfer alone: the genuine stream is intact and must succeed
                 if (fault == 11 && job && (!jobFinished || jobError != QXmppTransferJob::NoError || !exact)) {
